@@ -26,7 +26,7 @@ for pid in pids:
             open(p, "w").write(s.replace(m["old"], m["new"]))
             env = dict(os.environ, VERIF_REPO=d, VERIF_SEED=os.environ.get("VERIF_SEED", "1"), VERIF_SELFTEST="1")
             t = time.time()
-            r = subprocess.run([os.path.join(V, "check"), pid, "--tier", "quick"] + (["--only", m["obligation"]] if m.get("obligation") else []),
+            r = subprocess.run([os.path.join(V, "check"), pid, "--tier", "quick", "--no-evidence"] + (["--only", m["obligation"]] if m.get("obligation") else []),
                                env=env, capture_output=True, text=True)
             sigs = [l.strip() for l in r.stdout.splitlines() if l.strip().startswith("signature=")]
             verdict = {1: "KILLED", 0: "SURVIVED", 2: "HARNESS-ERROR"}.get(r.returncode, f"rc={r.returncode}")
